@@ -39,7 +39,8 @@ ASSUMPTIONS = ['asyncio: FIFO ready queue, gather() schedules its arguments in o
                'Gallina model of the nested async engine)']
 THEOREMS = ['C07_flat', 'C07_flat_named', 'C07_flat_documented_order', 'C07_flat_raising', 'C07_raising_example',
             'C07_may', 'C07_awaited', 'C07_flat_sequence', 'C07_completed', 'C07_start_order', 'C07_cond_awaitable',
-            'C07_cond_value', 'C07_example', 'C07_unknown_event_refuted', 'C07_raise_stage_refuted']
+            'C07_cond_value', 'C07_example', 'C07_unknown_event', 'C07_flat_any_name', 'C07_unknown_event_example',
+            'C07_raise_stage_refuted']
 THEOREM_OF_DIFF = 'corr_C07: Async.v (flat) / Hsm.v up to stage_view (hierarchical) vs transitions.extensions.asyncio'
 
 MODES = [False, True, 'model']
@@ -673,10 +674,6 @@ def model_sync_flag(case, obs):
             return 'call %d: stage_view differs from the synchronous engine' % idx
         if dict((a, b) for a, b in states).get(m) != sstate:
             return 'call %d: state differs from the synchronous engine' % idx
-        if res == [1, [9, 0]]:
-            if classify_unknown_ignored(case, idx):
-                continue
-            return 'call %d: not awaitable' % idx
         kind = case['history'][idx][1]
         if queued and kind != 1 and res[0] == 0 and known_event(case, idx):
             continue                          # a queued trigger returns True whatever the event did
@@ -688,11 +685,6 @@ def model_sync_flag(case, obs):
 def known_event(case, idx):
     e = case['history'][idx][2]
     return any(e == x for x, _ in case['machine']['events'])
-
-
-def classify_unknown_ignored(case, idx):
-    m, k, e, a = case['history'][idx]
-    return k == 0 and not known_event(case, idx)
 
 
 # ------------------------------------------------------------------ oracle on the implementation alone
@@ -712,7 +704,6 @@ def _rle(seq):
 def oracle_raw(case, obs):
     """(b) the asynchronous implementation against the synchronous implementation up to stage_view; evaluated inside
     canon (the flag it yields is compared with the constant flag on the model side)"""
-    kf = None
     if not isinstance(obs, dict) or 'a' not in obs:
         return None
     if obs.get('leftovers'):
@@ -741,18 +732,15 @@ def oracle_raw(case, obs):
         if sa[2] != sstates:
             return 'call %d: model states differ from Machine' % idx
         if sa[1] != sres:
-            if sa[1] == [1, [9, 0]] and sres == [0, 0] and classify_unknown_ignored(case, idx):
-                kf = 'KF-C07-1: await model.trigger(<unknown event>) on an ignoring state raises TypeError (call %d)' % idx
-                continue
             return 'call %d: result differs from Machine (%r vs %r)' % (idx, sa[1], sres)
-    return kf
+    return None
 
 
 def classify_known(case, model_obs, impl_obs):
-    m, i = model_obs, impl_obs
-    if isinstance(m, list) and isinstance(i, list) and len(m) == len(i) and m[:-1] == i[:-1] \
-            and isinstance(i[-1], str) and i[-1].startswith('KF-C07-1'):
-        return 'KF-C07-1'
+    """no known-finding class is exempted from the comparison: KF-C07-1 is fixed in /repo (D30: unknown event names
+    now behave as on Machine and are compared like everything else); the cases of KF-C07-2 (a callback registered
+    after a raising one still runs) are compared exactly with Async.v, which has that behaviour, and are excluded from
+    the async-vs-sync comparison by sync_comparable"""
     return None
 
 
@@ -858,7 +846,7 @@ def shrink_candidates(case):
 
 # ------------------------------------------------------------------ extra checks
 def _probe_kf1():
-    """KF-C07-1 on /repo: await model.trigger(<unknown>) on an ignoring state"""
+    """fixed KF-C07-1 (D30) on /repo: await model.trigger(<unknown>) on an ignoring state returns False"""
     tr = flat._import_transitions()
     from transitions.extensions.asyncio import AsyncMachine
 
@@ -957,18 +945,21 @@ def extra_checks(tier, seed):
         if isinstance(obs, dict) and obs.get('nested_a'):
             nested_calls += len(obs['nested_a'])
         msg = oracle_raw(case, obs)
-        if msg and not msg.startswith('KF-C07-1'):
+        if msg:
             bad = (case, obs, msg)
             break
     out.append(('unqueued_nested_async_vs_sync_implementation', bad is None,
                 dict(cases=n, nested_triggers_awaited=nested_calls, failing=None if bad is None else bad[2]),
                 None if bad is None else dict(kind='oracle', case=bad[0], impl_obs=bad[1], failing_clause=bad[2],
                                               note='queued=False, trigger awaited from the last callback of a stage')))
-    # (2) the witnesses of the two refuted statements, replayed on /repo
+    # (2) regression of the fixed KF-C07-1 (D30) and the witness of the refuted statement KF-C07-2, replayed on /repo
     k1 = _probe_kf1()
-    out.append(('KF-C07-1_witness_on_repo', True,
-                dict(sync_returns=repr(k1[0]), awaiting_async_gives=repr(k1[1]), still_present=(k1[1] == 'TypeError')),
-                None))
+    ok1 = k1[0] is False and k1[1] is False
+    out.append(('D30_unknown_event_regression', ok1,
+                dict(sync_returns=repr(k1[0]), awaiting_async_gives=repr(k1[1])),
+                None if ok1 else dict(kind='oracle', case=dict(probe='probes/KF-C07-1.py'), impl_obs=repr(k1),
+                                      failing_clause='await model.trigger(<unknown name>) on an ignoring state must '
+                                                     'return False like Machine (C07_unknown_event)')))
     k2 = _probe_kf2()
     out.append(('KF-C07-2_witness_on_repo', True,
                 dict(sync_calls=k2[0], async_calls=k2[1], still_present=(k2 == [[1], [1, 2]])), None))
